@@ -141,3 +141,81 @@ def _run_contracts(ctx, rep0, cfg, rule, seen, select=None):
                         rep.classify("PRECOND", key, reviewed, loc=loc,
                                      detail="argument %s passed to %s is not shown to satisfy its parameter contract %s" % (v.iv, t["path"], c))
     return n
+
+
+# ------------------------------------------------------------------------------------------------------------------
+# TRANSIENT: producers whose result may break a field contract until the caller re-validates it.  The reviewed reason on
+# the producer's own CONTRACT obligation can only say "the callers re-check": that sentence silently covers a caller
+# that does not (seed C17-d).  So every call site is an obligation of its own, discharged structurally.
+TRANSIENT = {
+    "shared::util::itime::IDateTime::to_timestamp":
+        "the unchecked half of to_timestamp_checked: its ITimestamp may lie outside the Timestamp range (one day + offset)",
+}
+_CHECKERS = ("::try_new", "::try_new128", "::from_itimestamp", "::try_rfrom", "::try_from", "::try_rinto")
+_CMP = ("Lt", "Le", "Gt", "Ge")
+
+
+def transient_callers(rep, prog, rule="TRANSIENT", floor=3):
+    from .term import Terms, walk
+    rep.rule(rule, "every call of a producer whose result may transiently break a field contract (IDateTime::to_timestamp: the "
+                   "second may lie outside the Timestamp range) re-validates the result in the calling function before it can "
+                   "escape: the result's seconds reach a comparison or a checked conversion (try_new, from_itimestamp) in the "
+                   "caller; a caller that hands the value on unchecked yields instants outside the Timestamp range (a panic in "
+                   "Timestamp::from_itimestamp_const in debug builds, an out-of-range Timestamp in release builds)")
+    n = 0
+    for name, g in sorted(prog.fns.items()):
+        T = None
+        k = 0
+        for bi, t in mir.iter_calls(g):
+            p = t.get("path", "")
+            if p not in TRANSIENT:
+                continue
+            n += 1
+            k += 1
+            T = T or Terms(g)
+            key = "%s | call %s#%d" % (name, p.rsplit("::", 1)[-1], k)
+            loc = "%s:%s" % (t["span"]["file"], t["span"]["line"])
+            me = T.call_term(t)
+            checked = None
+            for bj, u in mir.iter_calls(g):
+                if u is t:
+                    continue
+                up = u.get("path", "")
+                if up.endswith(_CHECKERS) or "PartialOrd" in up or up.endswith("::cmp"):
+                    for i in range(len(u.get("args", []))):
+                        a = T.at_call(bj, u, i)
+                        if any(y == me for y in walk(a)):
+                            checked = up.rsplit("::", 2)[-2] + "::" + up.rsplit("::", 1)[-1] if "::" in up else up
+                            break
+                if checked:
+                    break
+            if not checked:
+                for bj, b in enumerate(g.blocks):
+                    for si, s in enumerate(b["st"]):
+                        if s["s"] == "=" and s["rv"]["k"] == "bin" and s["rv"].get("op") in _CMP:
+                            for side in ("a", "b"):
+                                a = T.operand(s["rv"][side], pos=(bj, si))
+                                if any(y == me for y in walk(a)):
+                                    checked = "comparison %s" % s["rv"]["op"]
+                    if checked:
+                        break
+            if not checked and "::{closure#" in name:
+                # the closure returns the value to an adapter (Composite::map): the enclosing function must check it
+                parent = prog.fns.get(name.rsplit("::{closure#", 1)[0])
+                ret = Terms(g).returns()
+                if parent is not None and any(y == me for y in walk(ret)):
+                    PT = Terms(parent)
+                    cpath = name.split("::", 1)[1]
+                    for bj, u in mir.iter_calls(parent):
+                        up = u.get("path", "")
+                        if up.endswith(_CHECKERS):
+                            for i in range(len(u.get("args", []))):
+                                a = PT.at_call(bj, u, i)
+                                if any(isinstance(y, tuple) and y and y[0] == "closure" and y[1] == cpath for y in walk(a)):
+                                    checked = "%s in the enclosing function" % up.rsplit("::", 1)[-1]
+            if checked:
+                rep.ok(rule, key, how="re-validated in the caller by %s" % checked, loc=loc)
+            else:
+                rep.violation(rule, key, "the result of %s (%s) is not compared or converted with a checked conversion in this "
+                              "function: it escapes unvalidated" % (p.rsplit("::", 1)[-1], TRANSIENT[p]), loc)
+    rep.floor(rule + " call sites", n, floor)
